@@ -198,6 +198,78 @@ def dof_ok(exp):
     return npts - 1 - nclp >= 1
 
 
+def real_fit_identities(chk: Check, rng, n):
+    """The property's identities on results of real multi-iteration fits in which relation parameters and dataset
+    scales MOVE (so a result built from stale start values is exposed): data = fitted + residual,
+    fitted = scale_opt * matrix * clp, related clp = parameter_opt * source, constrained clp == 0."""
+    import numpy as np
+    import xarray as xr
+    from glotaran.builtin.megacomplexes.decay import DecayParallelMegacomplex
+    from glotaran.model import Model
+    from glotaran.optimization.optimize import optimize
+    from glotaran.parameter import Parameters
+    from glotaran.project import Scheme
+    from glotaran.simulation import simulate
+    M = Model.create_class_from_megacomplexes([DecayParallelMegacomplex])
+    for i in range(n):
+        link = rng.choice([True, False, None])
+        nds = 2
+        rel_true, sc_true = 2.5, 1.5
+        weighted = rng.random() < 0.4
+        md = {"megacomplex": {"m1": {"type": "decay-parallel", "compartments": ["s1", "s2", "s3"], "rates": ["k.1", "k.2", "k.3"]}},
+              "dataset_groups": {"default": {"link_clp": link}},
+              "dataset": {"d0": {"megacomplex": ["m1"]}, "d1": {"megacomplex": ["m1"], "scale": "sc.1"}},
+              "clp_relations": [{"source": "s1", "target": "s2", "parameter": "rel.1", "interval": [(0, 3)]}],
+              "clp_constraints": [{"type": "zero", "target": "s3", "interval": [(2, 10)]}]}
+        if weighted:
+            md["weights"] = [{"datasets": ["d0"], "global_interval": (1, 3), "value": 0.5}]
+        model = M(**md)
+        linked = link is not False
+        start = Parameters.from_dict({"k": [["1", 1.0], ["2", 0.3], ["3", 0.08]], "rel": [["1", 1.0]], "sc": [["1", 1.0, {"vary": linked}]]})
+        true = Parameters.from_dict({"k": [["1", 1.1], ["2", 0.25], ["3", 0.07]], "rel": [["1", rel_true]], "sc": [["1", sc_true]]})
+        time = np.linspace(0, 15, 30)
+        data = {}
+        sim_model = M(megacomplex=md["megacomplex"], dataset={"d0": {"megacomplex": ["m1"]}, "d1": {"megacomplex": ["m1"]}})
+        for d in range(nds):
+            spectral = np.arange(0.0, 5.0, 1.0)
+            vals = np.array([[1 + 0.3 * j, (rel_true * (1 + 0.3 * j)) if j <= 3 else 0.7, 0.9 if j < 2 else 0.0] for j in range(spectral.size)])
+            clp = xr.DataArray(vals * (sc_true if d == 1 else 1.0), coords=[("spectral", spectral), ("clp_label", ["s1", "s2", "s3"])])
+            data[f"d{d}"] = simulate(sim_model, f"d{d}", true, {"time": time, "spectral": spectral}, clp, noise=True, noise_std_dev=0.01, noise_seed=rng.randint(0, 10 ** 6))
+        method = rng.choice(["TrustRegionReflection", "Dogbox", "Levenberg-Marquardt"])
+        chk.evaluations += 1
+        with warnings.catch_warnings():
+            warnings.simplefilter("ignore")
+            res = optimize(Scheme(model=model, parameters=start, data=data, optimization_method=method, maximum_number_function_evaluations=15), verbose=False, raise_exception=True)
+        key = f"Result[fit identities]: link={link} weighted={weighted}"
+        rep = {"engine": "c03-fit", "link": link, "method": method}
+        p_rel = res.optimized_parameters.get("rel.1").value
+        p_sc = res.optimized_parameters.get("sc.1").value
+        moved = abs(p_rel - 1.0) > 1e-3
+        for label, rd in res.data.items():
+            scale = p_sc if label == "d1" else 1.0
+            if not np.allclose(rd.data.values, (rd.fitted_data + rd.residual).transpose(*rd.data.dims).values, rtol=1e-10, atol=1e-12):
+                chk.violation(key + " data", f"{label}: data != fitted_data + residual after a {method} fit", rep)
+            mat = rd.matrix
+            fit = scale * xr.dot(mat, rd.clp, dims="clp_label") if "spectral" not in mat.dims else scale * (mat * rd.clp).sum("clp_label")
+            if not np.allclose(fit.transpose("time", "spectral").values, rd.fitted_data.transpose("time", "spectral").values, rtol=1e-8, atol=1e-10):
+                chk.violation(key + " fitted", f"{label}: fitted_data != dataset_scale({scale}) x matrix x clp at the optimised parameters (rel.1={p_rel}, sc.1={p_sc}) after a {method} fit", rep)
+            for x in rd.coords["spectral"].values:
+                s1 = float(rd.clp.sel(spectral=x, clp_label="s1"))
+                s2 = float(rd.clp.sel(spectral=x, clp_label="s2"))
+                s3 = float(rd.clp.sel(spectral=x, clp_label="s3"))
+                if 0 <= x <= 3 and abs(s2 - p_rel * s1) > 4 * np.spacing(abs(s2)) + 1e-300:
+                    chk.violation(key + " relation", f"{label} at {x}: clp[s2] = {s2!r} but optimised parameter {p_rel!r} x clp[s1] = {p_rel * s1!r} ({method})", rep)
+                    break
+                if 2 <= x <= 10 and s3 != 0.0:
+                    chk.violation(key + " constraint", f"{label} at {x}: constrained clp[s3] = {s3!r}", rep)
+                    break
+            if "weighted_residual" in rd and not np.allclose(rd.weighted_residual.values, (rd.weight * rd.residual).transpose(*rd.weighted_residual.dims).values, rtol=1e-10, atol=1e-14):
+                chk.violation(key + " weighted_residual", f"{label}: weighted_residual != weight x residual", rep)
+        chk.traces += 1
+        if moved:
+            chk.nontriv(("fit", i))
+
+
 def run(tier: str, replay=None) -> int:
     chk = Check("C03", tier)
     rng = random.Random(seed() + 303)
@@ -208,6 +280,9 @@ def run(tier: str, replay=None) -> int:
                        "D8, D11 (degrees of freedom >= 1), D13; see C02",
                        "exactly-zero clauses compared with == 0.0; relation targets to 4 ulp; everything else 1e-9 relative"]
     if replay:
+        if replay["replay"]["engine"] == "c03-fit":
+            real_fit_identities(chk, random.Random(seed() + 303), 8 if tier == "quick" else 150)
+            return chk.finish()
         case = replay["replay"]["case"]
         exp, tot = tlc_expected([case], shards=1)
         chk.add_tlc(tot)
@@ -234,6 +309,7 @@ def run(tier: str, replay=None) -> int:
             chk.sample({"features": features(case), "case": case})
     if nin < n // 5:
         raise MachineryError(f"only {nin} of {n} cases usable")
+    real_fit_identities(chk, rng, 8 if tier == "quick" else 150)
     return chk.finish()
 
 
